@@ -41,7 +41,7 @@ ASSUMPTIONS = ['sha256 is idealised as a collision-free fixed-length digest (pre
                'runtime_reapplied: options left out of the key are re-applied on load (violated by F15: edit_terminals, postlex.always_accept)',
                'a crashed non-atomic write leaves a prefix of the new content (atomicwrites is not installed here)']
 
-IMPORTS = 'From Coq Require Import Uint63.\nFrom LV Require Import Cache.Bytes Cache.PyRepr Gen.CacheKey Cache.Cache Cache.Sha256 Cache.CacheCheck.'
+IMPORTS = 'From Coq Require Import Uint63.\nFrom LV Require Import Cache.Bytes Cache.PyRepr Gen.CacheKey Cache.Cache Cache.Sha256 Cache.WritePath Cache.CacheCheck.'
 UNHASHABLE = ('transformer', 'postlex', 'lexer_callbacks', 'edit_terminals', '_plugins')   # the property's own reading
 
 
@@ -892,6 +892,321 @@ def run_history_env(world, hist):
     return obs_all, problems_all
 
 
+
+# ------------------------------------------------------------------------------------------------------------
+# crash points of the write block, replayed on the real code (round 12)
+class Crash(BaseException):
+    """stands for the death of the process: not an Exception, so neither `except IOError` in the write block nor
+    `except Exception` in the read block sees it"""
+
+
+class Plan:
+    """where the writer dies: None (it does not), 'before' (before FS.open), or (i, j): after the open, i write calls
+    finished, j bytes of call number i written (i = number of calls: after the last write, before the file is closed)"""
+    def __init__(self, cp):
+        self.cp = cp
+        self.calls = 0          # write calls finished
+        self.opened = 0         # files opened for writing
+        self.modes = []
+        self.intended = []      # the byte strings handed to write(), including the one that was cut
+        self.bodies = []        # what body_f.getvalue() returned (internal observation point of the write block)
+
+    def before_open(self):
+        if self.cp == 'before':
+            raise Crash()
+
+    def at_end(self):
+        if isinstance(self.cp, tuple) and self.calls == self.cp[0]:
+            raise Crash()
+
+
+class CrashFile:
+    """the file object handed to the write block: a real file opened WITH THE MODE THE CODE ASKED FOR, unbuffered, so
+    that the path shows at every moment exactly the bytes that reached the operating system"""
+    def __init__(self, real, plan, own_exit=True):
+        self.real, self.plan, self.own_exit = real, plan, own_exit
+
+    def write(self, b):
+        cp = self.plan.cp
+        self.plan.intended.append(bytes(b))
+        if isinstance(cp, tuple) and self.plan.calls == cp[0]:
+            if cp[1]:
+                self.real.write(bytes(b)[:cp[1]])
+            raise Crash()
+        n = self.real.write(b)
+        self.plan.calls += 1
+        return n
+
+    def __enter__(self):
+        return self
+
+    def __exit__(self, et, ev, tb):
+        self.real.close()
+        if et is None:
+            self.plan.at_end()
+        return False
+
+    def __getattr__(self, name):
+        return getattr(self.real, name)
+
+
+def _shim_open(plan):
+    import builtins
+
+    def shim(name, mode='r', *a, **kw):
+        if any(c in mode for c in 'wax+'):
+            plan.before_open()
+            plan.opened += 1
+            plan.modes.append(mode)
+            kw = dict(kw, buffering=0)
+            return CrashFile(builtins.open(name, mode, *a, **kw), plan)
+        return builtins.open(name, mode, *a, **kw)
+    return shim
+
+
+def _fake_atomicwrites(plan):
+    """the `atomicwrites` package (1.4) as far as FS.open uses it: AtomicWriter.open() writes to a temporary file in the
+    directory of the target, fsyncs, and os.replace()s it over the target when the block is left normally; on an
+    exception the temporary file is removed.  A dying process (Crash) neither renames nor removes."""
+    import contextlib
+    import tempfile
+    import types
+
+    class AtomicWriter:
+        def __init__(self, path, mode='w', overwrite=False, **open_kwargs):
+            if 'a' in mode:
+                raise ValueError('Appending to an existing file is not supported')
+            if 'x' in mode:
+                raise ValueError('Use the `overwrite`-parameter instead.')
+            if 'w' not in mode:
+                raise ValueError('AtomicWriters can only be written to.')
+            self._path, self._mode, self._overwrite, self._open_kwargs = os.fspath(path), mode, overwrite, open_kwargs
+
+        def open(self):
+            return self._open()
+
+        @contextlib.contextmanager
+        def _open(self):
+            plan.before_open()
+            plan.opened += 1
+            plan.modes.append(self._mode)
+            fd, name = tempfile.mkstemp(prefix='tmp', dir=os.path.normpath(os.path.dirname(self._path)))
+            os.close(fd)
+            import builtins
+            real = builtins.open(name, self._mode, buffering=0, **self._open_kwargs)
+            f = CrashFile(real, plan, own_exit=False)
+            ok = False
+            try:
+                yield f
+                plan.at_end()
+                real.flush()
+                os.fsync(real.fileno())
+                real.close()
+                if self._overwrite:
+                    os.replace(name, self._path)
+                else:
+                    os.link(name, self._path)
+                    os.unlink(name)
+                ok = True
+            except Crash:
+                ok = True            # the process is dead: no rollback
+                real.close()
+                raise
+            finally:
+                if not ok:
+                    real.close()
+                    try:
+                        os.unlink(name)
+                    except OSError:
+                        pass
+
+    def atomic_write(path, writer_cls=AtomicWriter, **cls_kwargs):
+        return writer_cls(path, **cls_kwargs).open()
+    m = types.ModuleType('atomicwrites')
+    m.AtomicWriter, m.atomic_write = AtomicWriter, atomic_write
+    return m
+
+
+_MISSING = object()
+
+
+def construct_with(world, ev, sem, cp):
+    """Lark(..., cache=path) with FS.open taking its plain branch (sem='plain') or its atomicwrites branch (sem='atomic',
+    a stand-in package), the writer dying at crash point cp.  Returns (died, result of World.construct or None, plan)."""
+    import io
+    import lark.utils as U
+    import lark.lark as LL
+    plan = Plan(cp)
+    saved = {k: U.__dict__.get(k, _MISSING) for k in ('open', '_has_atomicwrites', 'atomicwrites')}
+    saved_io = LL.io
+
+    class RecBytesIO(io.BytesIO):
+        def getvalue(self):
+            v = io.BytesIO.getvalue(self)
+            plan.bodies.append(v)
+            return v
+
+    class IOProxy:
+        BytesIO = RecBytesIO
+
+        def __getattr__(self, name):
+            return getattr(io, name)
+    LL.io = IOProxy()
+    U.open = _shim_open(plan)
+    U._has_atomicwrites = (sem == 'atomic')
+    if sem == 'atomic':
+        U.atomicwrites = _fake_atomicwrites(plan)
+    try:
+        try:
+            return False, world.construct(ev, cached=True), plan
+        except Crash:
+            return True, None, plan
+    finally:
+        LL.io = saved_io
+        for k, v in saved.items():
+            if v is _MISSING:
+                U.__dict__.pop(k, None)
+            else:
+                setattr(U, k, v)
+        # temporary files a dead atomic writer left behind
+        d = world.root
+        for fn in os.listdir(d):
+            if fn.startswith('tmp') and os.path.isfile(os.path.join(d, fn)):
+                os.remove(os.path.join(d, fn))
+
+
+def coq_cp(cp):
+    if cp is None:
+        return '(@None cpoint)'
+    if cp == 'before':
+        return '(Some CBeforeOpen)'
+    return '(Some (CInWrite %s %s))' % (N(cp[0]), N(cp[1]))
+
+
+def stream_crashpoints(ctx, probe):
+    """every boundary and sampled interior points of the write block, under both branches of FS.open, from several
+    initial states of the path; then a later reader.  Property oracle: the later reader gets the uncached parser and leaves
+    a valid file; correspondence: file bytes after the crash and after the reader, hit/miss = WritePath.step2."""
+    rng = ctx.rng
+    P = {e[0]: e for e in pool()}
+    subjects = [(P['imp-y'], P['imp-x']), (P['ab'], P['words']), (P['common'], P['ab-keep'])]
+    if not ctx.thorough() and not ctx.widen:
+        subjects = subjects[:1]
+    cases, meta = [], []
+    for si, (entry, other) in enumerate(subjects):
+        world = World(ctx, probe, 'cp%d' % si)
+        ev, ev_other = mk_event(entry), mk_event(other)
+        # the complete files of both configurations (files of `entry` last: they are the ones on disk afterwards)
+        obs_o, _ = run_history(world, {'f0': None, 'events': [ev_other]})
+        F_other = obs_o[0]['final']
+        obs, problems = run_history(world, {'f0': None, 'events': [ev]})
+        F = obs[0]['final']
+        sp = split_file(F)
+        if sp is None or split_file(F_other) is None or problems:
+            ctx.violation('crashpoint:no-file', {'kind': 'history', 'hist': {'f0': None, 'events': [ev]}}, True,
+                          'construction with cache= left no complete cache file')
+            continue
+        hdr, pu, pd = sp
+        calls = [hdr + b'\n', pu + pd]
+        H, Bn = len(calls[0]), len(calls[1])
+        inits = [('absent', None), ('stale-other', F_other), ('stale-longer', F_other + F), ('stale-short', F_other[:H + 3]),
+                 ('own-prefix', F[:H + 1 + len(pu)])]
+        cps = ['before', (0, 0), (0, 1), (0, 64), (0, 65), (0, H - 1), (1, 0), (1, 1), (1, len(pu)), (1, Bn - 1), (2, 0)]
+        interior = [rng.choice([(0, rng.randrange(2, H - 1)), (1, rng.randrange(2, Bn - 1))])]
+        if ctx.thorough() or ctx.widen:
+            interior += [(0, rng.randrange(2, H - 1)) for _ in range(3)] + [(1, rng.randrange(2, Bn - 1)) for _ in range(6)]
+        for sem in ('plain', 'atomic'):
+            todo = []
+            if ctx.thorough() or ctx.widen:
+                todo = [(ini, cp) for ini in inits for cp in cps + interior]
+            else:      # every boundary under each branch of FS.open, the initial states taken in turn
+                allc = cps + interior
+                r0 = rng.randrange(len(inits))
+                todo = [(inits[(k + r0) % len(inits)], cp) for k, cp in enumerate(allc)]
+            for (iname, f0), cp in todo:
+                world.write('cache.bin', f0)
+                world.set_files(ev.get('files'))
+                died, c, plan = construct_with(world, ev, sem, cp)
+                after = world.read('cache.bin')
+                wit = {'kind': 'crashpoint', 'ev': ev, 'sem': sem, 'cp': list(cp) if isinstance(cp, tuple) else cp,
+                       'f0': f0.hex() if f0 is not None else None}
+                ctx.count('crash-points', key=(entry[0], sem, iname, cp), nontrivial=True, fs_open=sem, initial=iname,
+                          crash_at=('before-open' if cp == 'before' else 'call%d%s' % (cp[0], '' if cp[1] else '-start')))
+                if not died:
+                    ctx.violation('correspondence:crash point not reached',
+                                  {'no_longer_checks': 'the write block performs open + %d write calls' % len(calls), **wit}, False,
+                                  'the writer was to die at %r but the construction finished (%d write calls seen, modes %r)'
+                                  % (cp, plan.calls, plan.modes))
+                    continue
+                tabs = Tables()
+                for d in (F, F_other, f0, after):
+                    if d is not None:
+                        tabs.add(d)
+                if plan.bodies and plan.intended:
+                    tabs.add(plan.intended[0] + plan.bodies[-1])
+                env_crash = tabs.coq_env()
+                # ---- the property: a later reader (same configuration, then the other one) -----------------
+                # the stream this very writer was producing (the pickles differ from build to build: LALR state numbers)
+                if plan.bodies and plan.intended:
+                    F_int = plan.intended[0] + plan.bodies[-1]
+                    if len(plan.bodies) != 1 or b''.join(plan.intended) != F_int[:sum(map(len, plan.intended))]:
+                        ctx.violation('correspondence:write block', {'no_longer_checks': 'write calls = header line, then body_f.getvalue()', **wit},
+                                      False, 'the byte strings handed to f.write are not a prefix of header line + assembled body')
+                else:
+                    F_int = F
+                complete = after == F_int
+                sub = {'f0': after.hex() if after is not None else None, 'events': [ev], 'f0_is_cache_of_first': complete}
+                if f0 is not None and after == f0 and f0 == F_other:
+                    sub = {'f0': after.hex(), 'events': [ev_other, ev], 'f0_is_cache_of_first': True}
+                o2, problems = run_history_env(world, sub)
+                for stage, det, i in problems:
+                    ctx.violation('crashpoint:' + stage, wit, True,
+                                  'writer of %r died at %r under %s open (path was %s); later reader: %s' % (entry[0], cp, sem, iname, det))
+                if not problems and not check_valid_after(world, ev):
+                    ctx.violation('crashpoint:not-replaced', wit, True,
+                                  'after a writer died at %r (%s) the next construction did not leave a valid cache' % (cp, sem))
+                # ---- the model ----------------------------------------------------------------------------------
+                for o in o2:
+                    if o['after'] is not None:
+                        tabs.add(o['after'])
+                idx = tabs.add(F_int)
+                items = obs[0]['items']
+                if idx is None:
+                    continue
+                if not ascii_ok(world, ev, items) or not ascii_ok(world, ev_other, obs_o[0]['items']):
+                    continue
+                sem_c = 'Plain' if sem == 'plain' else 'Atomic'
+                comp = F_int if (after is not None and len(after) <= len(F_int) and F_int.startswith(after) and after != f0) else None
+                evs = ['(mkHev2 %s %s %s %s (Some (%s, %s)) false %s)' % (
+                    coq_cfg(world, ev, items), env_crash, sem_c, coq_cp(cp), N(idx[0]), N(idx[1]),
+                    'None' if after is None else '(Some %s)' % tabs.fileref(after, comp))]
+                for e2, o in zip(sub['events'], o2):
+                    built = 'None'
+                    if o['wrote']:
+                        j = tabs.add(o['after'])
+                        if j is None:       # not a well-formed file: already reported by the oracle
+                            evs = None
+                            break
+                        built = '(Some (%s, %s))' % (N(j[0]), N(j[1]))
+                    evs.append('(mkHev2 %s %s %s (@None cpoint) %s %s %s)' % (
+                        coq_cfg(world, e2, o['items'], o['gtext']), o['env'], sem_c, built, 'true' if o['hit'] else 'false',
+                        'None' if o['final'] is None else '(Some %s)' % tabs.fileref(o['final'])))
+                if evs is None:
+                    continue
+                f0c = '(@None fileref)' if f0 is None else '(Some %s)' % tabs.fileref(f0)
+                cases.append('(%s, %s, %s, %s)' % (tabs.coq_tu(), tabs.coq_td(), f0c, LT(evs, 'hev2')))
+                meta.append(wit)
+    ctx.sample({'stream': 'crash-points', 'example': meta[0] if meta else None})
+    bad, errs = ctx.coq_bad_indices('c12cp', IMPORTS, 'check_hist2', cases, chunk=ctx.scale(6, 12))
+    for e in errs:
+        ctx.violation('correspondence:coq-eval', {'error': e}, False, e[:300])
+    for i in bad:
+        w = meta[i]
+        ctx.violation('correspondence:WritePath.step2 vs the write block of Lark.__init__ dying at a crash point',
+                      {'no_longer_checks': 'file bytes after the crash and after the next construction, hit/miss', **w}, False,
+                      'writer died at %r under %s open: model and implementation disagree on the bytes left on the path or on hit/miss '
+                      'of the later reader; the property oracle held' % (w['cp'], w['sem']))
+
 # ------------------------------------------------------------------------------------------------------------
 # known findings: fixed histories outside the class where the theorems' hypotheses hold
 def exotic():
@@ -935,14 +1250,36 @@ def correspond(ctx):
     probe = Probe()
     try:
         stream_exotic(ctx, probe)
+        stream_crashpoints(ctx, probe)
         stream_histories(ctx, probe)
         stream_write_and_damage(ctx, probe)
     finally:
         probe.close()
 
 
+def replay_crashpoint(ctx, w):
+    """the writer dies at the recorded crash point; true iff a later reader is then served wrongly / the file is not repaired"""
+    probe = Probe()
+    try:
+        world = World(ctx, probe, 'replaycp')
+        ev = w['ev']
+        world.write('cache.bin', bytes.fromhex(w['f0']) if w.get('f0') is not None else None)
+        world.set_files(ev.get('files'))
+        cp = tuple(w['cp']) if isinstance(w['cp'], list) else w['cp']
+        died, c, plan = construct_with(world, ev, w['sem'], cp)
+        after = world.read('cache.bin')
+        complete = bool(plan.bodies and plan.intended and after == plan.intended[0] + plan.bodies[-1])
+        sub = {'f0': after.hex() if after is not None else None, 'events': [ev], 'f0_is_cache_of_first': complete}
+        obs, problems = run_history_env(world, sub)
+        return bool(problems) or not check_valid_after(world, ev)
+    finally:
+        probe.close()
+
+
 def replay(ctx, case):
     w = case['witness']
+    if w.get('kind') == 'crashpoint':
+        return replay_crashpoint(ctx, w)
     if w.get('kind') != 'history':
         return False
     probe = Probe()
